@@ -1,5 +1,6 @@
 use crate::common::Ctx;
 pub mod c15;
+pub mod c15_text;
 pub mod c07;
 pub mod c08;
 pub mod c08_tok;
